@@ -89,7 +89,12 @@ def py_of(t, v):
             return [py_of(t['of'], x) for x in v]
         if k == 'dict' and isinstance(v, dict) and 'd' in v:
             fields = dict((nm, f) for nm, f in t['fields'])
-            return {x[0]: (py_of(fields[x[0]], x[1]) if x[0] in fields else x[1]) for x in v['d']}
+            items = [(x[0], (py_of(fields[x[0]], x[1]) if x[0] in fields else x[1])) for x in v['d']]
+            # a dict is the same value whatever order its keys were inserted in: half of the dict payloads are handed over with the keys
+            # in another order than the definition lists them (by content, so that a replay rebuilds the same object)
+            if len(items) > 1 and sum(len(nm) for nm, _ in items) % 2 == 0:
+                items = items[1:] + items[:1] if len(items) % 2 else items[::-1]
+            return dict(items)
         if k == 'vec':
             import struct
             return tuple(struct.unpack('<f', struct.pack('<I', x))[0] for x in v['vec'])
